@@ -121,17 +121,28 @@ class install(repo_ops.install):
 
 class uninstall(repo_ops.uninstall):
     def __init__(self, repo, pkg, observer):
-        self.remove_path = pjoin(
-            repo.location, pkg.category, pkg.package + "-" + pkg.fullver
-        )
+        dirname = pkg.package + "-" + pkg.fullver
+        self.remove_path = pjoin(repo.location, pkg.category, dirname)
+        # repo listing skips .tmp.* entries
+        self.tmp_remove_path = pjoin(repo.location, pkg.category, f".tmp.unmerge.{dirname}")
         super().__init__(repo, pkg, observer)
 
     def remove_data(self):
         return True
 
+    def _hide_entry(self):
+        """atomically take the entry out of the repo listing"""
+        shutil.rmtree(self.tmp_remove_path, ignore_errors=True)
+        os.rename(self.remove_path, self.tmp_remove_path)
+
+    def _wipe_hidden_entry(self):
+        shutil.rmtree(self.tmp_remove_path)
+
     def finalize_data(self):
         update_mtime(self.repo.location)
-        shutil.rmtree(self.remove_path)
+        # hide first; an interrupted rmtree must not leave a partial entry listed
+        self._hide_entry()
+        self._wipe_hidden_entry()
         update_mtime(self.repo.location)
         return True
 
@@ -148,13 +159,19 @@ class replace(repo_ops.replace, install, uninstall):
         return install.add_data(self, domain)
 
     def finalize_data(self):
-        # XXX: should really restructure this into
-        # a rename of the unmerge dir, rename merge into it's place (for
-        # literal same fullver replacements), then wipe the unmerge
-        # that minimizes the window for races, and gets the data in place
-        # should unmerge somehow die.
-        uninstall.finalize_data(self)
+        if self.install_path != self.remove_path:
+            # the new entry becomes visible before the old one is dropped
+            install.finalize_data(self)
+            uninstall.finalize_data(self)
+            return True
+        # literal same fullver replacement: rename the old entry out of the
+        # way, rename the new one into its place, then wipe the old one.
+        # that minimizes the window in which neither is visible, and gets the
+        # data in place should the wipe somehow die.
+        update_mtime(self.repo.location)
+        self._hide_entry()
         install.finalize_data(self)
+        self._wipe_hidden_entry()
         return True
 
 
